@@ -249,6 +249,11 @@ pub fn worker_c21(tier: &str) {
         "pi(3.14159).".into(),
         "w($X) :- $X = \"quoted, text; here = there.\", print(%s\\, %s, $X, [a, b | $T]).".into(),
         "v(1.5, [2.5, 3.5], f(4.5)).".into(),
+        // a float as the very last token of a rule; non-ASCII letters in a head
+        "half($X) :- $X = 0.5.".into(),
+        "m($X, $Y) :- $Y = $X * 1.25.".into(),
+        "unit(one).".into(),
+        "déjeuner($X) :- café($X), $X = 2.5.".into(),
     ];
     extra.extend(crate::e4::corpus().into_iter().filter(|s| s.ends_with('.') && s.contains('(')));
     // transient scratch file: memory-backed if possible (removed at the end of the run)
